@@ -30,7 +30,7 @@ LEVEL = "proof"
 MANIFEST = dict(
     category="proof",
     text="Lean 4 theorems (XmpProps.C08) prove, for ALL inputs of the modelled layer: MD5Update of md5.c is chunk-independent and "
-         "the 16 KiB read loop of set_md5sum yields the MD5 of the whole stream (C08_md5_chunking, _chunking_list, _read_loop, _wf); "
+         "the 16 KiB read loop of set_md5sum yields the MD5 of the whole stream (C08_md5_chunking, _chunking_list, _read_loop, _wf) and equals the RFC 1321 padding+block-fold definition (C08_md5_spec); "
          "decrunch_gzip hands exactly the deflate stream to the decoder and returns the payload for every legal combination of "
          "FTEXT/FHCRC/FEXTRA/FNAME/FCOMMENT/reserved bits (C08_gzip_framing, _stream, _roundtrip); the archive walks select the first "
          "regular non-excluded member for every placement of excluded/directory/unsupported companions (C08_member_selection, "
@@ -52,7 +52,7 @@ MANIFEST = dict(
 )
 
 REQUIRED = ["Xmp.Container." + n for n in (
-    "C08_md5_chunking", "C08_md5_chunking_list", "C08_md5_read_loop", "C08_md5_wf", "C08_gzip_framing", "C08_gzip_stream",
+    "C08_md5_chunking", "C08_md5_chunking_list", "C08_md5_read_loop", "C08_md5_wf", "C08_md5_spec", "C08_gzip_framing", "C08_gzip_stream",
     "C08_gzip_roundtrip", "C08_member_selection", "C08_member_unpack", "C08_rle90_roundtrip", "C08_sniff_limits",
     "C08_dispatch_gzip", "C08_pipeline_of_decrunch", "C08_pipeline_partial", "C08_not_packed")]
 
